@@ -30,9 +30,9 @@ class Evaluator(Run):
 
     def ev_Name(self, node, frame):
         name = node.id
-        if self.pure and self.spec_env is not None and name in self.spec_env:
-            return self.spec_env[name]
         v = frame.lookup(name) if frame is not None else None
+        if v is None and self.pure and self.spec_env is not None and name in self.spec_env:
+            return self.unnull(self.spec_env[name], name)
         if v is not None:
             if v is UNDEFINED:
                 raise Unsupported("use of possibly-unbound local %r" % name)
@@ -193,9 +193,19 @@ class Evaluator(Run):
                 break
             t = self.decide(self.truthy(v), self.lab(x, "and" if is_and else "or"))
             if is_and and not t:
-                return v
+                return self.narrow(v)
             if not is_and and t:
-                return v
+                return self.narrow(v)
+        return v
+
+    def narrow(self, v):
+        """a union value whose tag the path condition already determines -> that member"""
+        if v.t.kind != "union":
+            return v
+        feas = [m for m in v.t.members if self.feasible(v.t.is_(v.z, m))]
+        if len(feas) == 1:
+            m = feas[0]
+            return mk_none() if m.kind == "none" else V(m, v.t.proj(v.z, m))
         return v
 
     def ev_IfExp(self, node, frame):
@@ -513,7 +523,9 @@ class Evaluator(Run):
         from . import models
 
         if not fn.is_const:
-            if fn.t.kind == "opaque" or fn.t.kind == "union":
+            if fn.t.kind == "union":
+                fn = self.project(fn, lambda t: t.kind == "opaque", self.lab(node, "call"))
+            if fn.t.kind == "opaque":
                 return self.ctx.call_opaque(self, fn, args, kwargs, node, frame)
             raise Unsupported("call of %s" % fn.t)
         o = fn.z
